@@ -402,9 +402,13 @@ def related_names(c: str, words, used, bad, r, limit=40) -> list[str]:
     (`data` for a file that mentions `metadata`) or contain a shorter one (`metadatax` ...): a rule that compares identifiers by
     containment instead of equality gives different findings for such a name than for an unrelated one"""
     n = len(c)
-    cls = (lambda t: bool(re.fullmatch(r"[a-z_][a-z0-9_]*", t))) if c.lower() == c else \
-          (lambda t: bool(re.fullmatch(r"[A-Z_][A-Z0-9_]*", t))) if c.upper() == c else \
-          (lambda t: bool(re.fullmatch(r"[A-Za-z_][A-Za-z0-9_]*", t)) and t.lower() != t and t.upper() != t)
+    # same letter-case class, and a letter where c has one (UPPER_CASE constants are exempt from magic-numbers by name: the class must
+    # survive the renaming); mixed-case names keep their exact pattern, i.e. get no related name
+    if not any(ch.isalpha() for ch in c) or (c.lower() != c and c.upper() != c):
+        return []
+    cls = (lambda t: bool(re.fullmatch(r"[a-z_][a-z0-9_]*", t)) and any(ch.isalpha() for ch in t)) if c.lower() == c else \
+          (lambda t: bool(re.fullmatch(r"[A-Z_][A-Z0-9_]*", t)) and any(ch.isalpha() for ch in t))
+    words = {w for w in words if any(ch.isalpha() for ch in w)}
     out = set()
     letters = "abcdefghijklmnopqrstuvwxyz"
     for w in sorted(words):
